@@ -135,8 +135,9 @@ try:
             else:
                 feats = self.computer(signal)
             del signal
-            for postprocessor in self.postprocessors:
-                feats = postprocessor(feats)
+            if feats.size(0):  # post-processors may refuse an utterance without frames
+                for postprocessor in self.postprocessors:
+                    feats = postprocessor(feats)
             return utt_id, feats.float()
 
 except ImportError:
